@@ -22,6 +22,11 @@ pub fn plan_for(property: &str, seed: u64, run: u64, miri: bool) -> HistPlan {
     let tag = if focus == Focus::C05 { TAG_C05 } else { TAG_C08 } ^ if miri { 0x1000 } else { 0 };
     let mut rng = Rng::new(run_seed(seed, tag, run));
     let mut knobs = if miri { HistKnobs::miri() } else { HistKnobs::for_focus(focus) };
+    // long-text thread plans (1024+ characters) exist in the generator but are switched off: one
+    // such plan costs about seven minutes per Miri seed (measured), see DESIGN.md known limits
+    if miri && std::env::var("VERIF_MIRI_LONG_TEXTS").is_ok() && run % 8 == 7 {
+        knobs.long_thread_texts = true;
+    }
     if !miri {
         // soak runs: long histories on one object with short texts, so that anything that
         // counts operations (and could wrap or cross a threshold) is driven past 2^8 and 2^16
